@@ -186,6 +186,21 @@ class FD:
         return Opaque('fstring', truth=True if any(isinstance(v, ast.Constant) and v.value
                                                    for v in e.values) else None)
 
+    def e_ListComp(self, e, env):
+        if len(e.generators) != 1 or e.generators[0].is_async:
+            raise Inconclusive('fdeval: nested comprehension')
+        g = e.generators[0]
+        it = self.eval(g.iter, env)
+        if it is UNKNOWN or isinstance(it, (Opaque, Obj)) or it is ERR:
+            raise Inconclusive('fdeval: comprehension over a non-concrete iterable')
+        out = []
+        inner = dict(env)
+        for item in list(it):
+            self.assign(g.target, item, inner)
+            if all(truth(self.eval(c, inner)) for c in g.ifs):
+                out.append(self.eval(e.elt, inner))
+        return out
+
     def e_Tuple(self, e, env):
         return tuple(self.eval(x, env) for x in e.elts)
 
@@ -452,8 +467,9 @@ class FD:
             raise Raised('AttributeError', "'NoneType' object has no attribute %r" % attr)
         if recv is ERR:
             raise Raised('AttributeError', 'exception has no attribute %r' % attr)
-        if isinstance(recv, str) and attr in ('lower', 'upper', 'strip', 'rstrip', 'lstrip',
-                                              'startswith', 'endswith', 'split', 'count'):
+        if isinstance(recv, str) and attr in ('lower', 'upper', 'strip', 'rstrip', 'lstrip', 'replace',
+                                              'startswith', 'endswith', 'split', 'count', 'capitalize',
+                                              'splitlines', 'join'):
             if any(a is UNKNOWN for a in args):
                 return UNKNOWN
             return getattr(recv, attr)(*args)
@@ -671,6 +687,13 @@ class FD:
                 env[d] = v
             else:
                 raise Inconclusive('fdeval: attribute store')
+        elif isinstance(t, ast.Subscript) and isinstance(t.slice, ast.Slice):
+            base = self.eval(t.value, env)
+            lo = self.eval(t.slice.lower, env) if t.slice.lower else None
+            hi = self.eval(t.slice.upper, env) if t.slice.upper else None
+            if not isinstance(base, list) or v is UNKNOWN:
+                raise Inconclusive('fdeval: slice store')
+            base[lo:hi] = v
         elif isinstance(t, ast.Subscript):
             base = self.eval(t.value, env)
             idx = self.eval(t.slice, env)
@@ -762,7 +785,24 @@ def _b_round(x, n=None):
     return round(x, n) if n is not None else round(x)
 
 
+def _concrete_seq(f):
+    def g(*args):
+        for a in args:
+            if a is UNKNOWN or a is ERR or isinstance(a, (Opaque, Obj)):
+                raise Inconclusive('fdeval: builtin on a non-concrete value')
+        return f(*args)
+    return g
+
+
 _BUILTINS = {
+    'reversed': _concrete_seq(lambda x: list(reversed(x))),
+    'sorted': _concrete_seq(lambda x: sorted(x)),
+    'list': _concrete_seq(lambda *x: list(*x)),
+    'tuple': _concrete_seq(lambda *x: tuple(*x)),
+    'enumerate': _concrete_seq(lambda x, start=0: list(enumerate(x, start))),
+    'range': _concrete_seq(lambda *x: list(range(*x))),
+    'zip': _concrete_seq(lambda *x: list(zip(*x))),
+    'min': _concrete_seq(min), 'max': _concrete_seq(max), 'sum': _concrete_seq(sum),
     'len': _b_len,
     'bool': _b_bool,
     'round': _b_round,
